@@ -53,10 +53,10 @@ func saveFileExtensionHandlers(handlers map[string]string) error {
 	if err != nil {
 		return fmt.Errorf("couldn't json-encode file extension handlers: %w", err)
 	}
-	verifhook.BeforeWrite("extensions.before_write", octosqlFileExtensionHandlersFile, data)
 	// Write to a temporary file and rename it into place, so that a crash mid-write can't leave a
 	// truncated registry behind (it's read on every start).
 	tmpFile := octosqlFileExtensionHandlersFile + ".tmp"
+	verifhook.BeforeWrite("extensions.before_write", tmpFile, data)
 	if err := os.WriteFile(tmpFile, data, 0644); err != nil {
 		return fmt.Errorf("couldn't write file extension handlers to file: %w", err)
 	}
